@@ -41,7 +41,7 @@ RULE = (
     "mode, dictionary); non-trivial = the dictionary selects an overload, a pre-set/default option or a template."
 )
 ASSUMPTIONS = ["graphs are built from importable module-level functions in explicit dataset(f) form; the decorator form is the recorded finding pickle-decorator-form-dataset"]
-FLOORS = {"roundtrips": (54, 54), "outcomes_compared": (2000, 2000), "child_interpreters": (18, 54), "post_load_registrations": (24, 24),
+FLOORS = {"roundtrips": (66, 66), "outcomes_compared": (2400, 2400), "child_interpreters": (22, 66), "post_load_registrations": (30, 30),
           "unpickled_register_schedules": (150, 1500)}
 SHARDS_QUICK = 2
 SHARDS_THOROUGH = 4
